@@ -162,14 +162,16 @@ CHECKS = {
                         "PARTIAL: future_inprogress / exec_inprogress and the counters are decided by the registry-vs-reality comparison of this run; their pairing law is Model/Metrics.v"],
     },
     "C12": {
-        "modules": ["p_c12"],
-        "rule": "seeded scenarios on real retry / poll / throttle / timeout executors (over sync or a manual delegate that forgets finished "
+        "modules": ["p_c12", "p_c12w"],
+        "rule": "p_c12w: the drop scenarios of p_c12 with the four worker loops in lockstep with Model/Refs.v: every executor_ref() of the loop with its result, whether a library frame "
+                "of the loop still holds the executor when it goes to wait, every set / wait / wake-up / time-out / clear of the loop's event and the finalisation of the executor "
+                "(the weak reference's callback) are logged from outside and replayed on the extracted machine; p_c12: seeded scenarios on real retry / poll / throttle / timeout executors (over sync or a manual delegate that forgets finished "
                 "work): 1-3 submissions with weakly referenced callable, argument, result and future; fates {completed, cancelled while "
                 "queued, cancelled in flight, still pending when the executor is dropped}; the user drops references and gc.collect() runs "
                 "at scheduler-chosen points; ending {shutdown, drop the last executor reference, interpreter-exit hook}; monitor: weakrefs "
                 "of finished futures are dead while the executor lives on, pending futures are completed after the drop, the worker thread "
                 "exits; non-trivial = a preemption occurred",
-        "assumptions": ["PARTIAL: GC/finalisation timing is CPython's; the worker-loop protocol is proved on Model/Refs.v"],
+        "assumptions": ["PARTIAL: GC/finalisation timing is CPython's; the worker-loop protocol is proved on Model/Refs.v, which is in lockstep with the four loops (drop scenarios); reference retention of finished work is decided by weakref probes"],
     },
     "C02": {
         "extra_props": ["Props/Comb_F.v", "Props/MapFut_D.v"],
